@@ -124,6 +124,7 @@ func c15RunCase(t *testing.T, rng *c15Rand, nOps int) c15Case {
 		}
 		sizes := []uint64{0, 1, 10, 30, 31, 100, 1500, 1 << 31, math.MaxInt64}
 		active := 1
+		lastDump := ""
 		cookieOf := func(a int) (uint64, bool) {
 			m.mu.Lock()
 			defer m.mu.Unlock()
@@ -240,6 +241,11 @@ func c15RunCase(t *testing.T, rng *c15Rand, nOps int) c15Case {
 			}
 			op.Now = now()
 			op.Dump = c15Dump(m, t0, nAddrs)
+			if i > 0 && fmt.Sprint(op.Dump) == lastDump {
+				op.Dump = nil // unchanged since the previous operation (emitted as null)
+			} else {
+				lastDump = fmt.Sprint(op.Dump)
+			}
 			res.Ops = append(res.Ops, op)
 		}
 	})
